@@ -140,12 +140,20 @@ type localSQL struct {
 }
 
 func openLocalSQL(path string, readOnly bool, params ...string) (*localSQL, error) {
-	dsn := "file:" + path + "?_busy_timeout=8000"
+	busy := "_busy_timeout=8000"
+	for _, p := range params {
+		if strings.HasPrefix(p, "_busy_timeout=") {
+			busy = p
+		}
+	}
+	dsn := "file:" + path + "?" + busy
 	if readOnly {
 		dsn += "&mode=ro"
 	}
 	for _, p := range params {
-		dsn += "&" + p
+		if !strings.HasPrefix(p, "_busy_timeout=") {
+			dsn += "&" + p
+		}
 	}
 	db, err := sql.Open("sqlite3", dsn)
 	if err != nil {
